@@ -3,6 +3,7 @@ Line protocol of the C18 model driver (core-only).  One op per line, tokens sepa
 
   h <endpoint> <key=value>* ; <schema J | n> ; <body J | !>    -> status the handler model answers
        keys: plan=<maxCollections>,<maxPoints>,<maxPointSize> ncols=<n> exists=<0|1> cid=<len> found=<0|1> count=<n>
+             user=<str> planid=<str> planok=<0|1>   (the X-User-Id / X-Plan-Id headers; planok: the plan is configured)
        `!` = the decoder refused the body
   uuid <str>                      -> 1 | 0                                   (uuid.Parse succeeds)
   size <schema J> ; <point J>     -> err | <n>   (v2 insert: CheckCompatibleMap, ExtractIdField, len(msgpack.Marshal))
@@ -224,13 +225,17 @@ def hLine (ep : String) (args schemaT bodyT : List String) : String :=
       match body with
       | none => "bad-body-tokens"
       | some bj =>
+        -- headers: user=<str> planid=<str> planok=<0|1> (absent = a valid pair)
+        let hdr : Headers := match kvArg args "user" with
+          | none => ⟨S "u", S "p", true⟩
+          | some u => ⟨(strTok u).getD [], ((kvArg args "planid").bind strTok).getD [], natArg args "planok" == 1⟩
         let run {α : Type} (p : J → Option α) (mk : Option α → Req) : String :=
           match bj with
-          | none => toString (handle sp0 en0 ctx (mk none)).status
+          | none => toString (handleHttp sp0 en0 hdr ctx (mk none)).status
           | some j => match p j with
             | none => "bad-body"
-            | some b => toString (handle sp0 en0 ctx (mk (some b))).status
-        let nobody (r : Req) : String := toString (handle sp0 en0 ctx r).status
+            | some b => toString (handleHttp sp0 en0 hdr ctx (mk (some b))).status
+        let nobody (r : Req) : String := toString (handleHttp sp0 en0 hdr ctx r).status
         match ep with
         | "v2List" => nobody .v2List
         | "v2Get" => nobody .v2Get
